@@ -39,6 +39,8 @@ def expected_from(sols):
 
 def compare(oracle, mod, inst):
     """returns None if the real solver agrees with the oracle, else a dict describing the mismatch"""
+    if hasattr(oracle, "ambiguous") and oracle.ambiguous(inst):
+        return None
     try:
         is_sat, got = oracle.run_real(mod, inst)
     except Exception as e:
@@ -65,6 +67,8 @@ def _worker(args):
     name, insts = args
     out = dict(name=name, n=0, mismatches=[], crash=None, nontrivial=0)
     try:
+        import warnings
+        warnings.simplefilter("ignore")
         load_repo()
         oracle = importlib.import_module("specs.rules." + name)
         mod = importlib.import_module(oracle.MODULE)
